@@ -28,6 +28,14 @@ def main() -> int:
         vrt_selftest = None
     if vrt_selftest is not None:
         ok = vrt_selftest.main() == 0
+    # kernel-model conformance against real loopback sockets: informative (loopback may be unavailable in a sandbox), never fatal
+    try:
+        from mc import vnet_conformance  # noqa: PLC0415
+
+        rc = vnet_conformance.main()
+        print("kernel-model conformance:", "ok" if rc == 0 else f"differences (exit {rc}) - see lines above; not fatal for setup")
+    except Exception as exc:  # noqa: BLE001
+        print("kernel-model conformance could not run (not fatal):", repr(exc))
     print("selftest", "ok" if ok else "FAILED")
     return 0 if ok else 1
 
